@@ -50,7 +50,8 @@ def make_units(tier):
                     A['tag'], B['tag'] = 'A', 'B'
                     bound = 1
                     if tier == 'thorough':
-                        bound = 2
+                        # sized to finish within the budget on 16 cores: bound 2 for the base variant at fs None/64
+                        bound = 2 if (variant == 0 and fs != 97) else 1
                     elif n % 53 == 0:
                         bound = 2
                     K = 1 if bound == 1 else 16
